@@ -6,6 +6,7 @@ def run(ctx):
     from . import lazyvars as _lazyvars
     _lazyvars.rule_lazy_variable_counter(ctx)
     _lazyvars.rule_range_offset(ctx)
+    _lazyvars.rule_encoding_loops_exhaust(ctx)
     layout.rule_variable_layout(ctx)
     layout.rule_selector_above_encoding(ctx)
     layout.rule_clause_templates(ctx)
